@@ -241,7 +241,48 @@ func (g *G) extraTmpl(d int) *Node {
 
 // extraStmt returns a statement (group) of one of the extra kinds.
 func (g *G) extraStmt(d int) []*Node {
-	switch g.intn(11, "extraStmtKind") {
+	switch g.intn(13, "extraStmtKind") {
+	case 11, 12:
+		// bound built-in methods: a method value keeps its own receiver while the same method of another
+		// receiver is read, called, or called inside its own arguments
+		recv := func(tag string) *Node {
+			if vs := g.Env.OfType(TArrI); len(vs) > 0 && g.intn(2, "bmVar"+tag) == 0 {
+				return Var(vs[g.intn(len(vs), "bmWhich"+tag)].Name)
+			}
+			return g.arrILit(1 + g.intn(3, "bmLen"+tag))
+		}
+		a, b := recv("A"), recv("B")
+		m := []string{"sum", "len", "kh", "kl", "pop", "shift", "push"}[g.intn(7, "bmMethod")]
+		args := func() []*Node {
+			if m == "push" {
+				return []*Node{Int(int64(g.intn(10, "bmArg")))}
+			}
+			return nil
+		}
+		res := g.FreshName()
+		g.Env.Put(&VarInfo{Name: res, T: TAny, Len: -1})
+		switch g.intn(3, "bmShape") {
+		case 0:
+			// f = A.m; B.m(); r = f()
+			f := g.FreshName()
+			g.Env.Put(&VarInfo{Name: f, T: TAny, Len: -1})
+			return []*Node{Set(f, &Node{K: "attr", S: m, Kids: []*Node{a}}), MCall(b, m, args()...), Set(res, Call(Var(f), args()...))}
+		case 1:
+			// f = A.m; g = B.m; r = [f(), g()]
+			f, f2 := g.FreshName(), g.FreshName()
+			g.Env.Put(&VarInfo{Name: f, T: TAny, Len: -1})
+			g.Env.Put(&VarInfo{Name: f2, T: TAny, Len: -1})
+			return []*Node{Set(f, &Node{K: "attr", S: m, Kids: []*Node{a}}), Set(f2, &Node{K: "attr", S: m, Kids: []*Node{b}}),
+				Set(res, N("arr", Call(Var(f), args()...), Call(Var(f2), args()...)))}
+		}
+		// the same method of another receiver inside the arguments: A.kh(B.kh()), A.push(B.push(k).len())
+		switch m {
+		case "kh", "kl":
+			return []*Node{Set(res, MCall(a, m, MCall(b, m)))}
+		case "push":
+			return []*Node{Set(res, MCall(a, "push", MCall(MCall(b, "push", args()...), "len")))}
+		}
+		return []*Node{Set(res, N("arr", MCall(a, m), MCall(b, m), MCall(a, "len")))}
 	case 10:
 		// variable lookup goes through the caller chain: `reader` reads a name that its caller
 		// `outer` holds as a local (shadowing the top-level variable of the same name, if any)
